@@ -912,7 +912,7 @@ fn fixed_no_year_hint_body<const Y: i32>() {
     vcover!("dated.year_less_hint.next_year", matches!(hint, Some(h) if h.year() > d.year()));
 }
 
-//@H props=C02,C08,C04 tier=deep kind=complete cap=2400 mem=medium domain="all year-less (month, day) bounds x all dates x all intermediate dates, outside the invalid-day region; callees replaced by their contracts"
+//@H props=C02,C08,C04 tier=thorough kind=complete cap=2400 mem=medium domain="all year-less (month, day) bounds x all dates x all intermediate dates, outside the invalid-day region; callees replaced by their contracts"
 #[cfg_attr(kani, kani::proof)]
 #[cfg_attr(kani, kani::unwind(6))]
 #[cfg_attr(kani, kani::stub(opening_hours_syntax::rules::day::DateOffset::apply, date_offset_apply_model))]
@@ -938,7 +938,7 @@ fn dated_hint_fixed_no_year_2024() {
     fixed_no_year_hint_body::<2024>()
 }
 
-//@H props=C02,C08,C04 tier=deep kind=bounded cap=1500 mem=medium bound="dates of the year 9999 (the last supported year)" domain="all year-less (month, day) bounds x every day of 9999 x all intermediate dates, outside the invalid-day region; callees replaced by their contracts"
+//@H props=C02,C08,C04 tier=thorough kind=bounded cap=1500 mem=medium bound="dates of the year 9999 (the last supported year)" domain="all year-less (month, day) bounds x every day of 9999 x all intermediate dates, outside the invalid-day region; callees replaced by their contracts"
 #[cfg_attr(kani, kani::proof)]
 #[cfg_attr(kani, kani::unwind(6))]
 #[cfg_attr(kani, kani::stub(opening_hours_syntax::rules::day::DateOffset::apply, date_offset_apply_model))]
